@@ -129,6 +129,29 @@ def run_for_property(prop, seed_value=0, only=None):
                 res["failed"].append("%s: recorded as caught by %s but the check is silent (rc=%s)" % (sid, prop, rc))
         finally:
             shutil.rmtree(d, ignore_errors=True)
+    # behaviour-preserving refactorings written by independent sub-agents (as patches)
+    import glob as _g
+
+    for dp in sorted(_g.glob(os.path.join(HERE, "selftest", "neutral_diffs", "*.diff"))):
+        nid = "neutral_diffs/" + os.path.basename(dp)
+        if only and nid not in only:
+            continue
+        d = make_scratch()
+        try:
+            r = subprocess.run(["patch", "-p1", "-s", "-d", d, "-i", dp], stdout=subprocess.PIPE, stderr=subprocess.STDOUT, text=True)
+            res["neutral"] += 1
+            if r.returncode != 0:
+                res["skipped"].append("%s (patch no longer applies)" % nid)
+                continue
+            rc, keys, err = run_check(prop, d)
+            if rc == 0:
+                res["neutral_silent"] += 1
+            elif rc == 2 and "cannot extract facts" in err:
+                res["skipped"].append("%s (does not compile on the current tree)" % nid)
+            else:
+                res["failed"].append("neutral refactoring %s makes the check fire: %s" % (nid, keys[:4]))
+        finally:
+            shutil.rmtree(d, ignore_errors=True)
     for n in neutrals:
         if only and n["id"] not in only:
             continue
